@@ -159,7 +159,7 @@ def build(cfg, values=None):
 def configs(tier, seed):
     out = []
     quick = tier == 'quick'
-    pairs = [(2, 2), (3, 1), (1, 3)] if quick else [(1, 1), (2, 2), (3, 2), (2, 3), (3, 3), (4, 4), (5, 6)]
+    pairs = [(2, 2), (3, 1), (1, 3), (4, 1), (1, 5)] if quick else [(1, 1), (2, 2), (3, 2), (2, 3), (3, 3), (4, 4), (5, 6)]
     for model in MODELS:
         for (m, n) in pairs:
             if model == 'kpanel' and m * n > (4 if quick else 9):
@@ -175,7 +175,8 @@ def configs(tier, seed):
         if not quick:
             out.append({'model': model, 'm': 5, 'n': 4, 'variant': 'rigid', 'sub': True, 'group': 'total-mass-subinterval:%s' % model})
     out.append({'model': 'bay', 'm': 2, 'n': 2, 'variant': 'blade1d', 'group': 'kM:bladestiff1d-flange'})
-    out.append({'model': 'bay', 'm': 1, 'n': 3, 'variant': 'blade1d', 'group': 'kM:bladestiff1d-flange'})
+    out.append({'model': 'bay', 'm': 1, 'n': 5, 'variant': 'blade1d', 'group': 'kM:bladestiff1d-flange'})
+    out.append({'model': 'bay', 'm': 4, 'n': 1, 'variant': 'blade1d', 'group': 'kM:bladestiff1d-flange'})
     out[0]['canary'] = True
     out[-3]['canary'] = True
     return out
